@@ -118,6 +118,20 @@ def reuse_history(ctx, lw, rng):
     if r < 0.25:
         x = [lw.qubit.H(), lw.qubit.CNOT(), lw.qubit.CZ_Heralded(), lw.qubit.S()][int(rng.integers(4))]
         xlog.append(["gate", type(x).__name__])
+    elif r < 0.33:
+        # an object that consists of exactly ONE group (and possibly heralds with input != output declared on it)
+        inner_log: list = []
+        k_ = int(rng.integers(2, 5))
+        inner = b.leaf(k_, int(rng.integers(1, 4)), inner_log, heralds=0)
+        x = lw.Circuit(k_)
+        x.add(inner, 0, group=True)
+        xlog.extend([["circuit", k_], ["add", inner_log, 0, True]])
+        if rng.random() < 0.6 and k_ >= 3:
+            hi, ho = (int(v) for v in rng.choice(k_, size=2, replace=False))
+            nph_ = int(rng.integers(0, 2))
+            x.herald(nph_, hi, ho)
+            xlog.append(["herald", nph_, hi, ho])
+        ctx.bucket("reused_object_is_a_single_group")
     elif r < 0.4:
         # herald-free object that contains plain groups (sub-circuits added with group=True)
         saved = b.loss_p
